@@ -4,7 +4,8 @@ Correspondence: a real Plan runs a real optimizer step whose optimizer is (a) a 
 PluginManager.add_plugin that issues arbitrary function / gradient / batch requests with free-vector arguments through
 the OptimizerCallback, or (b) the real SciPy plug-in (slsqp, nelder-mead, differential_evolution serial and
 vectorised) behind a recording wrapper; optionally with a nested plan whose inner optimization owns the complementary
-variables, a VariableScaler (non-nested only), scripted or built-in samplers on disjoint variable sets.  Every row the
+variables, a VariableScaler (non-nested only), an explicit `variables=` start vector, a previous run of the same step
+object, scripted or built-in samplers on disjoint variable sets.  Every row the
 evaluator callable receives, every reported result (variables, perturbed variables, all gradient arrays), what the
 optimizer was handed (initial vector, x0/bounds for SciPy, shapes of returned functions/gradients) and every nested
 hand-over are recorded per optimizer run and compared inside Coq with Model/Mask.v (+ Model/Bounds.v for the perturbed
@@ -29,19 +30,24 @@ PARALLEL = True
 CASE_TIMEOUT = 120
 RULE = ("one case = one outer optimizer step on a real Plan (plus all inner optimizer runs of its nested plan). Masks: every "
         "mask with at least one free variable for V <= 4 in rotation (incl. no mask, all-free, single-free), sampled masks for "
-        "V in 5..8. Optimizer: scripted plug-in (1-6 requests: function, gradient, both, batches of 2-3 rows; free values inside "
-        "the bounds, without nesting also outside) or the real SciPy plug-in (slsqp, nelder-mead, differential_evolution serial "
-        "and vectorised, 1-2 iterations). Samplers: 1-3 on disjoint variable sets with -1 entries and sets containing only fixed "
-        "variables; scripted dyadic samples (from small steps to many bound widths) or norm/uniform/truncnorm/sobol/halton/lhs. "
-        "Boundary types NONE/TRUNCATE/MIRROR per variable, finite/one-sided/infinite bounds, initial values inside the bounds, "
-        "0-2 non-linear constraints, 1-2 objectives, 1-3 realizations. Nested: inner plan with the complementary mask and its own "
-        "scripted requests, delivering one of its results (or none). VariableScaler with power-of-two scales (non-nested, no "
-        "explicit variables=). Non-trivial = the mask fixes at least one variable and at least one evaluation happened; distinct = "
+        "V in 5..8. The step starts from the configured initial values or (40% of the runs without a scaler) from an explicit "
+        "variables= vector inside the bounds that differs from them also on the fixed positions; in 15% the same step object "
+        "has already run once on the same plan. Optimizer: scripted plug-in (1-6 requests: function, gradient, both, batches of "
+        "1-3 rows, gradient-only requests at the point of an earlier function request or of the first/last row of an earlier "
+        "batch, repeated; free values inside the bounds, without nesting also outside; in 40% it overwrites in place every array "
+        "it was handed or passed) or the real SciPy plug-in (slsqp, nelder-mead, differential_evolution serial and vectorised, "
+        "1-2 iterations). Samplers: 1-3 on disjoint variable sets with -1 entries, unused samplers and sets containing only "
+        "fixed variables; scripted dyadic samples (from small steps to many bound widths) or "
+        "norm/uniform/truncnorm/sobol/halton/lhs. Boundary types NONE/TRUNCATE/MIRROR per variable, finite/one-sided/infinite "
+        "bounds, 0-2 non-linear constraints, 1-2 objectives, 1-3 realizations. Nested: inner plan with the complementary mask "
+        "and its own scripted requests, delivering one of its results (or none), also between a function request and the "
+        "gradient-only request at the same free point. VariableScaler with power-of-two scales (non-nested, no explicit "
+        "variables=). Non-trivial = the mask fixes at least one variable and at least one evaluation happened; distinct = "
         "distinct case hash.")
 ASSUMPTIONS = [
-    "initial values are inside the bounds, and so are the values a nested optimization delivers for the outer optimization's fixed variables (the scripted inner optimizer requests only points inside the bounds)",
-    "nested plans are run without variable transforms (with them the run hits known finding C11:explicit-step-variables); VariableScaler is exercised in non-nested runs without an explicit variables= argument, with power-of-two scales and dyadic offsets so that the user/optimizer round trip is exact",
-    "samplers obey the contract of ropt.plugins.sampler.base (zeros outside their variable set); this is checked for the built-in SciPy samplers through the perturbed rows and for the scripted sampler by construction",
+    "initial values and explicit start vectors are inside the bounds, and so are the values a nested optimization delivers for the outer optimization's fixed variables (the scripted inner optimizer requests only points inside the bounds)",
+    "nested plans and explicit variables= start vectors are run without variable transforms (with them the run hits known finding C11:explicit-step-variables); VariableScaler is exercised in non-nested runs without an explicit variables= argument, with power-of-two scales and dyadic offsets so that the user/optimizer round trip is exact",
+    "samplers obey the contract of ropt.plugins.sampler.base (zeros outside their variable set); this is checked for the built-in SciPy samplers through the perturbed rows (every position no sampler owns) and for the scripted sampler by construction",
     "the nested plan's function returns a FunctionResults produced by the inner optimizer step of the same call (the harness does not reuse a tracker across inner runs)",
     "the evaluator returns finite values (no failed realizations; failures are C03/C14)",
 ]
@@ -49,6 +55,7 @@ TRUSTED = [
     "the recording layer of the harness (evaluator callable, FINISHED_EVALUATION observer, wrapper around the optimizer callback and around scipy.optimize.minimize/differential_evolution as imported by the plug-in)",
     "SciPy's algorithms and samplers are black boxes: the vectors they request and the samples they draw are observed inputs of the model",
     "gradient values on free variables are not checked here (C02); only their position, the exact zeros and the lengths are",
+    "np.allclose(rtol=0, atol=1e-15) of the evaluator's function-value cache is modelled as |a-b| <= 10^-15 on the exact rational values of the recorded floats",
 ]
 
 NONE, TRUNC, MIRROR = 1, 2, 3
@@ -184,7 +191,7 @@ def gen_one(rng, mask_hint=-1, force=None):
             "bts": bts, "mags": mags, "gs": gs, "samplers": sconfs, "nc": nc, "nobj": nobj, "scaler": scaler,
             "seed": rng.randint(1, 10 ** 6), "nested": None, "start": start,
             # the same step object has already run once (from the configured initial values) on the same plan
-            "warmup": force.get("warmup", rng.random() < 0.2),
+            "warmup": force.get("warmup", rng.random() < 0.15),
             # the scripted optimizer overwrites, in place, the arrays it was handed (initial values, returned functions
             # and gradients) and the request arrays it passed, as an optimizer using them as work space does
             "scribble": rng.random() < 0.4}
@@ -206,7 +213,7 @@ def gen_one(rng, mask_hint=-1, force=None):
 
 
 def gen_cases(tier, rng):
-    n_rot, n_big = (520, 80) if tier == "quick" else (8800, 1200)
+    n_rot, n_big = (480, 70) if tier == "quick" else (7200, 900)
     for i in range(n_rot):
         yield gen_one(rng, mask_hint=i)
     for _ in range(n_big):
@@ -722,19 +729,27 @@ def search(rng, case):
 MANIFEST = {
     "level_text": ("Machine-checked Coq proof, for every mask, vector length, request sequence (vector and batch requests) and every "
                    "interleaving of nested deliveries, that the executable model of EnsembleOptimizer's callback "
-                   "(_get_completed_variables + the _fixed_variables state), of sampler masks and of _expand_gradients keeps every "
-                   "vector sent on for evaluation equal, on masked positions, to the starting vector or the last nested delivery; that "
-                   "perturbed vectors equal the current vector on every position outside the samplers' variable sets (which are "
-                   "pairwise disjoint and inside the mask) when the current vector is inside the bounds; that expanded gradients are "
-                   "literal zeros on masked positions and the optimizer gets back exactly the free entries. The model is tied to the "
-                   "code on every run by an in-Coq comparison with recorded real Plan/optimizer-step runs (scripted optimizer plug-in, "
-                   "SciPy slsqp / nelder-mead / differential_evolution, nested plans, several samplers, VariableScaler): every "
-                   "evaluator row, every reported result and gradient, every nested hand-over."),
+                   "(_get_completed_variables + the _fixed_variables state), of sampler masks, of what _perturb_variables builds from "
+                   "several samplers, of the evaluator's function-value cache and of _expand_gradients keeps every vector sent on for "
+                   "evaluation equal, on masked positions, to the starting vector or the last nested delivery; that perturbed vectors "
+                   "equal the current vector on every position no sampler owns (every masked-out position and every free position "
+                   "with a negative sampler index; the samplers' variable sets are pairwise disjoint and inside the mask) when the "
+                   "current vector is inside the bounds; that cached function values are used for a gradient only when the cached "
+                   "full vector -- fixed positions included -- coincides with the requested one; that expanded gradients are literal "
+                   "zeros on masked positions and the optimizer gets back exactly the free entries. The model is tied to the code on "
+                   "every run by an in-Coq comparison with recorded real Plan/optimizer-step runs (scripted optimizer plug-in that "
+                   "may scribble over every array it sees, SciPy slsqp / nelder-mead / differential_evolution, explicit start "
+                   "vectors, re-used step objects, nested plans, several samplers, VariableScaler): every evaluator row (their "
+                   "number predicted by the cache model), every reported result in both domains, every gradient array in both "
+                   "domains, every nested hand-over."),
     "level_note": ("Black boxes (observed inputs of the model, not verified): the vectors a SciPy algorithm requests, the samples of the "
-                   "built-in samplers, the gradient values on free variables (C02), what the inner optimization delivers. Nested runs use "
-                   "no variable transform (known finding C11:explicit-step-variables is reported by C11); VariableScaler runs use "
-                   "power-of-two scales so that 'unchanged' can be compared bit-exactly. The premise 'inside the bounds' is needed: "
-                   "_apply_bounds clips fixed variables too. Trusted: Coq kernel + VM, the recording harness, the literal printer. "
+                   "built-in samplers, the gradient values on free variables (C02), what the inner optimization delivers. Nested runs "
+                   "and explicit start vectors use no variable transform (known finding C11:explicit-step-variables is reported by "
+                   "C11); VariableScaler runs use power-of-two scales so that 'unchanged' can be compared bit-exactly. The premise "
+                   "'inside the bounds' is needed: _apply_bounds clips fixed variables too. A gradient computed from stale cached "
+                   "function values at the right vector is not a violation of the property text; the check reports it as a "
+                   "model disagreement (no-failing-input-found). Not exercised: linear constraints with a mask (C08), objective / "
+                   "constraint transforms (none is built in). Trusted: Coq kernel + VM, the recording harness, the literal printer. "
                    "All theorems print 'Closed under the global context'."),
     "technique": "Coq proof (induction over masks and request sequences on an executable Gallina state machine) + in-Coq differential correspondence with recorded Plan/optimizer-step runs using injected optimizer and sampler plug-ins",
     "design_ref": "DESIGN.md section 4, C09",
